@@ -2,6 +2,7 @@
 import json
 import os
 import vf
+import _tlccache
 
 LOW = {"n": 16, "r": 1, "p": 1, "dkLen": 64}
 SCHEMES = ["SHA256withECDSA", "SHA3-256withECDSA"]
@@ -97,7 +98,7 @@ def tlc_design(ctx, name, **kw):
     """the design (all deviation switches off) must satisfy the property invariants"""
     txt = cfg_text(dev_new=False, dev_dup=False, export=False,
                    invariants=["TypeOK", "Saved", "Persist", "Opens", "OneDefault"], **kw)
-    r = ctx.tlc("Wallet_MC", cfg=name, files={name: txt}, timeout=1500)
+    r = _tlccache.run(ctx, "Wallet_MC", "Wallet", name, txt, tags_needed=False)
     if r.status != "ok":
         ctx.infra("TLC did not verify the wallet design (%s): %s %s %s" % (name, r.status, r.violated, r.errors[:2]))
         return None
@@ -113,7 +114,7 @@ def tlc_asis(ctx, name, dev, simulate=None, depth=None, **kw):
     if not (dev["NewIgnoresWalletScrypt"] and kw["wscrypt"] != "def" and kw["new_ids"]):
         inv.append("Opens")
     txt = cfg_text(dev_new=dev["NewIgnoresWalletScrypt"], dev_dup=dev["DupAddrImport"], export=True, invariants=inv, **kw)
-    r = ctx.tlc("Wallet_MC", cfg=name, files={name: txt}, workers=1, timeout=1500, simulate=simulate, depth=depth)
+    r = _tlccache.run(ctx, "Wallet_MC", "Wallet", name, txt, simulate=simulate, depth=depth, workers=1)
     if r.status != "ok" and not (simulate and r.status == "error" and not r.errors):
         ctx.infra("TLC failed on %s: %s %s %s" % (name, r.status, r.violated, r.errors[:2]))
         return None
@@ -147,7 +148,10 @@ def replay(ctx, binary, paths, tag, import_ids, all_ids, labels, wscrypt, dev, o
         ctx.infra("wallet replay produced %d observations, expected %d" % (len(obs), expected))
     cfgdesc = {"scrypt": wscrypt, "importIds": import_ids, "allIds": all_ids}
     n = 0
+    dead = set()
     for o in obs:
+        if o["path"] in dead:
+            continue
         p = paths[o["path"]]
         if o["step"] == 0:
             act, to = {"name": "Init", "res": "init"}, p["init"]
@@ -195,10 +199,12 @@ def replay(ctx, binary, paths, tag, import_ids, all_ids, labels, wscrypt, dev, o
         d = first_diff(strip(live, opens_live), {k: v for k, v in mv.items() if opens_live or k != "opens"})
         if d:
             ctx.violation("Model:%s:live-%s" % (name, d[0]), d[1], rp)
+            dead.add(o["path"])   # the rest of this path is no longer comparable
             continue
         d = first_diff(strip(re), fv)
         if d:
             ctx.violation("Model:%s:reloaded-%s" % (name, d[0]), d[1], rp)
+            dead.add(o["path"])
             continue
         if o["step"] > 0 and o["res"] != act["res"]:
             # same state, different answer: not a statement of C38 -> the model misdescribes the code
